@@ -83,10 +83,11 @@ pub fn architectures() -> Vec<Value> {
                           {"kind": "feedback", "loops": 2, "acc": "mean", "layers": [{"kind": "dense", "out": 4, "act": "tanh", "bias": false}]},
                           {"kind": "dense", "out": 2, "act": "linear", "bias": false}],
                "objective": {"kind": "mse"}, "optimizer": {"kind": "adam", "lr": 0.01}}),
-        // several filters in top-level deconvolution and convolution layers under a stateful optimizer (one state slot each)
+        // several filters in top-level deconvolution and convolution layers under a stateful optimizer (one state slot each);
+        // kernels wider than tall and taller than wide
         json!({"name": "deconv-multifilter-adam", "ints": false, "input": [1, 3, 3], "out": 2,
-               "layers": [{"kind": "deconv", "filters": 2, "kernel": [2, 2], "stride": [1, 1], "padding": [0, 0], "act": "tanh"},
-                          {"kind": "conv", "filters": 3, "kernel": [3, 3], "stride": [1, 1], "padding": [0, 0], "act": "tanh"},
+               "layers": [{"kind": "deconv", "filters": 2, "kernel": [2, 3], "stride": [1, 1], "padding": [0, 0], "act": "tanh"},
+                          {"kind": "conv", "filters": 3, "kernel": [3, 2], "stride": [1, 1], "padding": [0, 0], "act": "tanh"},
                           {"kind": "dense", "out": 2, "act": "linear", "bias": true}],
                "objective": {"kind": "mse"}, "optimizer": {"kind": "adam", "lr": 0.01}}),
         // a dense layer wider than the 64-element blocks the evaluation paths use, and not a multiple of 64
@@ -978,7 +979,8 @@ pub fn record_threads(seed: u64, tier: &str, trace: &mut Vec<Value>, rep: &mut R
     for job in thread_jobs() {
         let name = str_of(&job, "name").to_string();
         let data_seed = rng.next();
-        let (n, batch, epochs) = (rng.range(9, 14) as usize, rng.range(3, 5) as usize, 2usize);
+        // one job trains on groups of more than 64 samples (block-wise reductions must not depend on the pool either)
+        let (n, batch, epochs) = if name == "mlp-other-skips-sgdm" { (rng.range(150, 170) as usize, rng.range(70, 90) as usize, 2usize) } else { (rng.range(9, 14) as usize, rng.range(3, 5) as usize, 2usize) };
         let mut baseline: Option<RunResult> = None;
         let mut first_spec: Option<RunSpec> = None;
         for &threads in thread_counts.iter() {
